@@ -111,7 +111,10 @@ def run(ctx):
         return None
 
     cases = []
-    values = strings(ctx) + [v for v in interesting_values()]
+    valid = "0123456789abcdef" * 9
+    # the same characters as bytes / bytearray: never a hex STRING; and a mixed-case spelling
+    nonstr = [f(valid[:L].encode()) for L in (2, 40, 64, 128) for f in (bytes, bytearray)] + [b"AB" * 32, b"\x00" * 32]
+    values = strings(ctx) + [v for v in interesting_values()] + nonstr + ["A" + valid[1:64], valid[:39] + "F", "aB" * 64]
     for fn, n in list(PREDS.items()) + list(RAISERS.items()):
         kind = "pred" if fn in PREDS else "raise"
         for v in values:
@@ -141,10 +144,11 @@ def run(ctx):
     # key lists: duplicates under any spelling
     k = "0123456789abcdef" * 4
     lists = [[k], [k, k], [k, k.upper()], [k, " " + k], [k, "ab" * 32], [k, "ab" * 32, k], [], [k, 5], (k,), k, None,
-             [k, "AB" * 32], ["ab" * 32, "AB" * 32], [k[:-1]], [k, "ａ" + k[1:]]]
+             [k, "AB" * 32], ["ab" * 32, "AB" * 32], [k[:-1]], [k, "ａ" + k[1:]],
+             [k, k.encode()], [k.encode()], [k, "0123456789abcdeF" + k[16:]], ["ab" * 32, "aB" + "ab" * 31], [k, k[:-1] + "\n"], [k[:-1] + "\n"], [k, bytearray(k.encode())]]
 
     def okl(l):
-        return type(l) is list and all(grammar(x, 64) for x in l) and len(set(map(bytes.fromhex, l))) == len(l)
+        return type(l) is list and all(grammar(x, 64) for x in l) and len(set(bytes.fromhex(x) for x in l)) == len(l)
     lcases = [{"w": wire.case("checkformat_list_of_hex_keys", l), "meta": {"kind": "raise", "fn": "checkformat_list_of_hex_keys", "want": okl(l)}} for l in lists]
     core.run_stream(ctx, core.Stream("key lists (duplicates, alternative spellings)", lcases, rel_exact, oracle))
     ctx.assumptions = ["strings range over all of Unicode in the theorems; the correspondence enumerates the embeddings listed in the stream names"]
